@@ -86,6 +86,23 @@ const P_1024_CALLS: usize = 16;
 // wrappers
 // ---------------------------------------------------------------------------------------------
 
+/// A stock `Delay` that replaces itself by its clone before block `clone_at` (counted from 0).
+pub struct SnapDelay {
+    inner: Delay<Vec<f32>>,
+    calls: u64,
+    clone_at: u64,
+}
+impl Node for SnapDelay {
+    fn process(&mut self, inputs: &[Input], output: &mut [Buffer]) {
+        if self.calls == self.clone_at {
+            let c = self.inner.clone();
+            self.inner = c;
+        }
+        self.calls += 1;
+        self.inner.process(inputs, output)
+    }
+}
+
 pub trait Wrap: Node + Sized + 'static {
     const NAME: &'static str;
     fn wrap<T: Node + Send + 'static>(t: T) -> Self;
@@ -317,7 +334,9 @@ fn eval_node(n: &mut NodeM, inputs: &[Vec<Buf>], obs: &mut Observer) {
 // driver
 // ---------------------------------------------------------------------------------------------
 
-pub fn make_node<W: Wrap>(m: &NodeM, param: i64) -> Option<W> {
+/// `snap_delay`: odd-parameter Delay nodes swap themselves for their clone mid-run (allocates: the
+/// allocation scenario switches it off)
+pub fn make_node<W: Wrap>(m: &NodeM, param: i64, snap_delay: bool) -> Option<W> {
     let tag = m.tag;
     Some(match m.kind {
         K_SRC => W::wrap(SrcNode { tag, call: 0 }),
@@ -417,7 +436,17 @@ pub fn make_node<W: Wrap>(m: &NodeM, param: i64) -> Option<W> {
                     ring_buffer::Fixed::from_raw_parts(first, phys)
                 })
                 .collect();
-            W::wrap(Delay(rings))
+            if snap_delay && param % 2 == 1 {
+                // same node, but it swaps itself for its own clone before the k-th block (a
+                // snapshot/restore of a running delay line): the history must survive the copy
+                W::wrap(SnapDelay {
+                    inner: Delay(rings),
+                    calls: 0,
+                    clone_at: 1 + (param as u64 / 2 + tag as u64) % 4,
+                })
+            } else {
+                W::wrap(Delay(rings))
+            }
         }
         K_GRAPHNODE => {
             let k = m.inner_in.len();
@@ -566,7 +595,7 @@ fn drive<W: Wrap, G: GraphLike<W>>(src: &mut Source, obs: &mut Observer) -> Resu
                 let tag = next_tag;
                 let init = if op.c % 2 == 0 { 0.0 } else { 100.0 + tag as f32 };
                 let model = new_model(tag, kind, nbuf, op.c, init);
-                let Some(node) = make_node::<W>(&model, op.c) else {
+                let Some(node) = make_node::<W>(&model, op.c, true) else {
                     // this node kind cannot live behind this wrapper (not Send)
                     src.skip_last();
                     obs.skipped();
